@@ -1601,6 +1601,25 @@ pub fn suite_text(ctx: &mut Ctx) {
         text_pair(ctx, &c, &old, &new, i);
     }
     lap(ctx, &mut t_lap, "random_pairs");
+    // long RUNS of identical tokens with an edit inside a run, on both sides of the 100-token switch, with no deadline, with a
+    // deadline that has expired before the call and with one that expires at the second check (a head / tail computed over
+    // the whole texts overlaps exactly here)
+    let nruns = if ctx.tier == Tier::Quick { 150u64 } else { 1500 };
+    for i in 0..nruns {
+        if !ctx.take() {
+            continue;
+        }
+        let mut rng = case_rng(ctx, 0x10c6f, i);
+        let kind = Kind::DIFF[(i % 5) as usize];
+        let (old, new) = long_run_pair(&mut rng, kind);
+        let mode = if is_utf8(&old) && is_utf8(&new) && i % 2 == 0 { Mode::Str } else { Mode::Bytes };
+        for dl in [None, Some(0), Some(1)] {
+            let c = TextCfg { kind, alg: ALGS[((i / 5) % 3) as usize], nlt: None, dl };
+            ctx.count("text.long_run_cases");
+            text_case(ctx, &c, mode, &old, &new);
+            text_case(ctx, &c, mode, &new, &old);
+        }
+    }
     // PASTED lines: an old text of distinct lines, a new text in which a few of them are dropped and a few EXISTING lines are
     // pasted in a second time elsewhere (nothing repeats in old, shared lines repeat in new), on both sides of the 100-token
     // switch -- the shape in which an insertion can slide although "nothing repeats"
